@@ -1,1 +1,19 @@
+//! Runtime shim for the tiny-http verification hooks (`--cfg tiny_http_verif`).
+//!
+//! * default: plain re-exports of `std` — the hooked library is the normal library plus the
+//!   in-memory transport;
+//! * feature `sched`: the same names backed by shuttle, plus a condition variable whose timed
+//!   waits are fired by a *virtual clock task*, so that every scheduling decision and every
+//!   timeout is decided by the harness' schedule tape.
 
+#[cfg(not(feature = "sched"))]
+mod imp_std;
+#[cfg(not(feature = "sched"))]
+pub use imp_std::*;
+
+#[cfg(feature = "sched")]
+mod imp_sched;
+#[cfg(feature = "sched")]
+pub use imp_sched::*;
+
+pub mod mem;
